@@ -1,3 +1,578 @@
+(* Formation/Proofs.v — lemmas about the model of formation/renewal validation (patched code). *)
+From Coq Require Import Lia ZifyBool ZifyN ZifyNat.
 From HostdBase Require Import Base.
-From HostdRevision Require Import Model.
+From HostdRevision Require Import Model Proofs.
 From HostdFormation Require Import Model.
+Local Open Scope N_scope.
+
+(** * vocabulary *)
+
+Definition addr_at (l : list output) (i : nat) : N :=
+  match nth_error l i with Some o => oaddr o | None => 0 end.
+
+(* the host's heights and settings do not wrap around 2^64 (the uint64 sums of the code are
+   the sums of the property's wording) *)
+Definition nowrap (height window maxdur : N) : Prop :=
+  height + window < two64 /\ height + maxdur + window < two64.
+
+(* the contract terms the property demands of an accepted formation or renewal *)
+Record terms_ok (fc : rev) (height window maxdur addr : N) : Prop := {
+  t_start_lo : height + window <= rws fc;          (* starts no sooner than the window size *)
+  t_start_hi : rws fc <= height + maxdur;          (* ... and no later than the maximum duration *)
+  t_length   : rws fc + window <= rwe fc;          (* at least the window size long *)
+  t_shape    : shape23 fc;                         (* renter+host valid, renter+host+void missed *)
+  t_vaddr    : addr_at (rvalid fc) 1 = addr;       (* host payouts to the host's wallet address *)
+  t_maddr    : addr_at (rmissed fc) 1 = addr;
+  t_void     : addr_at (rmissed fc) 2 = void_addr  (* third missed output to the void address *)
+}.
+
+(* price * size * extension of the data already stored (0 without extension) *)
+Definition ext_cost (unit : N) (ex rn : rev) : N :=
+  if rwe rn <=? rwe ex then 0 else unit * rsize rn * (rwe rn - rwe ex).
+
+(** * helpers *)
+
+Lemma wadd_small : forall a b, a + b < two64 -> wadd a b = a + b.
+Proof. intros a b H; unfold wadd; apply N.mod_small; assumption. Qed.
+
+Lemma wadd_le : forall a b, wadd a b <= a + b.
+Proof. intros a b; unfold wadd. apply N.mod_le. discriminate. Qed.
+
+Lemma cmul64_o_false : forall a b s, cmul64_o a b = (s, false) -> s = a * b /\ a * b < two128.
+Proof.
+  unfold cmul64_o; intros a b s H; inversion H as [[Hs Hov]]; clear H.
+  apply N.leb_gt in Hov. split; [apply N.mod_small|]; lia.
+Qed.
+
+Lemma nth_out_addr : forall l i o, nth_out l i = Ok o -> oaddr o = addr_at l i.
+Proof. intros l i o H; apply nth_out_ok in H; unfold addr_at; rewrite H; reflexivity. Qed.
+
+Lemma nth_out_eval : forall l i, (i < length l)%nat -> exists o, nth_out l i = Ok o /\ oaddr o = addr_at l i /\ oval o = val_at l i.
+Proof.
+  intros l i H. destruct (nth_out_lt l i H) as [o E]. exists o.
+  split; [assumption|]. split; [apply nth_out_addr|apply nth_out_val]; assumption.
+Qed.
+
+(* rewrite every accessor of a contract with two valid and three missed outputs *)
+Ltac eval_accessors r H :=
+  let Lv := fresh "Lv" in let Lm := fresh "Lm" in
+  match goal with
+  | [ A : length (rvalid r) = 2%nat, B : length (rmissed r) = 3%nat |- _ ] =>
+      let o1 := fresh "o" in let o2 := fresh "o" in let o3 := fresh "o" in
+      destruct (nth_out_eval (rvalid r) 1) as (o1 & ?E1 & ?A1 & ?V1); [lia|];
+      destruct (nth_out_eval (rmissed r) 1) as (o2 & ?E2 & ?A2 & ?V2); [lia|];
+      destruct (nth_out_eval (rmissed r) 2) as (o3 & ?E3 & ?A3 & ?V3); [lia|]
+  end.
+
+(** * the shared window/shape/address checks *)
+
+Lemma renewal_std_sound : forall ex rn uhexp height window maxdur addr,
+  nowrap height window maxdur ->
+  renewal_std ex rn uhexp height window maxdur addr = Ok tt ->
+  terms_ok rn height window maxdur addr /\
+  rnum rn = 0 /\ rsize rn = rsize ex /\ rroot rn = rroot ex /\ rwe ex <= rwe rn /\ ruh rn = uhexp.
+Proof.
+  intros ex rn uhexp height window maxdur addr [W1 W2] H. unfold renewal_std, bad in H.
+  step H. step H. step H. step H. step H. step H. step H. step H. step H.
+  assert (Lv : length (rvalid rn) = 2%nat) by lia.
+  assert (Lm : length (rmissed rn) = 3%nat) by lia.
+  destruct (nth_out_eval (rvalid rn) 1) as (o1 & E1 & A1 & V1); [lia|].
+  destruct (nth_out_eval (rmissed rn) 1) as (o2 & E2 & A2 & V2); [lia|].
+  destruct (nth_out_eval (rmissed rn) 2) as (o3 & E3 & A3 & V3); [lia|].
+  rewrite E1, E2, E3 in H; cbn [bind] in H.
+  step H. step H. step H. step H.
+  rewrite (wadd_small height window) in * by lia.
+  rewrite (wadd_small height maxdur) in * by lia.
+  rewrite (wadd_small (rws rn) window) in * by lia.
+  split; [constructor; try (unfold shape23; split; assumption); lia|]. lia.
+Qed.
+
+(* the upper bound on the window start needs no assumption on the settings *)
+Lemma renewal_std_upper : forall ex rn uhexp height window maxdur addr,
+  renewal_std ex rn uhexp height window maxdur addr = Ok tt -> rws rn <= height + maxdur.
+Proof.
+  intros ex rn uhexp height window maxdur addr H. unfold renewal_std, bad in H.
+  step H. step H. step H. step H. step H. step H.
+  pose proof (wadd_le height maxdur). lia.
+Qed.
+
+Lemma renewal_std_no_panic : forall ex rn uhexp height window maxdur addr,
+  renewal_std ex rn uhexp height window maxdur addr <> Panic.
+Proof.
+  intros. unfold renewal_std, bad.
+  do 7 (match goal with |- (if ?b then _ else _) <> Panic => destruct b; [discriminate|] end).
+  destruct (negb (length (rvalid rn) =? 2)%nat) eqn:C1; [discriminate|].
+  destruct (negb (length (rmissed rn) =? 3)%nat) eqn:C2; [discriminate|].
+  destruct (nth_out_eval (rvalid rn) 1) as (o1 & E1 & _); [lia|].
+  destruct (nth_out_eval (rmissed rn) 1) as (o2 & E2 & _); [lia|].
+  destruct (nth_out_eval (rmissed rn) 2) as (o3 & E3 & _); [lia|].
+  rewrite E1, E2, E3; cbn [bind].
+  repeat match goal with |- (if ?b then _ else _) <> Panic => destruct b; [discriminate|] end.
+  discriminate.
+Qed.
+
+(** * validateContractFormation *)
+
+Lemma validate_formation_sound : forall fc uhexp height s hc,
+  nowrap height (s_window s) (s_maxdur s) ->
+  validate_formation fc uhexp height s = Ok hc ->
+  terms_ok fc height (s_window s) (s_maxdur s) (s_address s) /\
+  rsize fc = 0 /\ rnum fc = 0 /\ rroot fc = 0 /\ ruh fc = uhexp /\
+  mvoid fc = 0 /\ vh fc = mh fc /\
+  s_price s <= vh fc /\ vh fc <= s_maxcoll s /\
+  hc = vh fc - s_price s /\ hc <= s_maxcoll s.
+Proof.
+  intros fc uhexp height s hc [W1 W2] H. unfold validate_formation, bad in H.
+  step H. step H. step H. step H. step H. step H. step H. step H.
+  assert (Lv : length (rvalid fc) = 2%nat) by lia.
+  assert (Lm : length (rmissed fc) = 3%nat) by lia.
+  destruct (nth_out_eval (rvalid fc) 1) as (o1 & E1 & A1 & V1); [lia|].
+  destruct (nth_out_eval (rmissed fc) 1) as (o2 & E2 & A2 & V2); [lia|].
+  destruct (nth_out_eval (rmissed fc) 2) as (o3 & E3 & A3 & V3); [lia|].
+  rewrite E1, E2, E3, (valid_host_eval fc), (missed_host_eval fc) in H by lia; cbn [bind] in H.
+  step H. step H. step H. step H. step H. step H. step H. step H.
+  unfold csub in H. destruct (s_price s <=? vh fc) eqn:Cs; [|discriminate H]. inversion H; subst; clear H.
+  rewrite (wadd_small height (s_window s)) in * by lia.
+  rewrite (wadd_small height (s_maxdur s)) in * by lia.
+  rewrite (wadd_small (rws fc) (s_window s)) in * by lia.
+  fold (mvoid fc) in V3. fold (vh fc) in V1. fold (mh fc) in V2.
+  split; [constructor; try (unfold shape23; split; assumption); lia|]. lia.
+Qed.
+
+Lemma validate_formation_upper : forall fc uhexp height s hc,
+  validate_formation fc uhexp height s = Ok hc -> rws fc <= height + s_maxdur s.
+Proof.
+  intros fc uhexp height s hc H. unfold validate_formation, bad in H.
+  step H. step H. step H. step H. step H.
+  pose proof (wadd_le height (s_maxdur s)). lia.
+Qed.
+
+Lemma validate_formation_no_panic : forall fc uhexp height s,
+  validate_formation fc uhexp height s <> Panic.
+Proof.
+  intros. unfold validate_formation, bad.
+  do 6 (match goal with |- (if ?b then _ else _) <> Panic => destruct b; [discriminate|] end).
+  destruct (negb (length (rvalid fc) =? 2)%nat) eqn:C1; [discriminate|].
+  destruct (negb (length (rmissed fc) =? 3)%nat) eqn:C2; [discriminate|].
+  destruct (nth_out_eval (rvalid fc) 1) as (o1 & E1 & _); [lia|].
+  destruct (nth_out_eval (rmissed fc) 1) as (o2 & E2 & _); [lia|].
+  destruct (nth_out_eval (rmissed fc) 2) as (o3 & E3 & _); [lia|].
+  rewrite E1, E2, E3, (valid_host_eval fc), (missed_host_eval fc) by lia; cbn [bind].
+  do 4 (match goal with |- (if ?b then _ else _) <> Panic => destruct b; [discriminate|] end).
+  destruct (vh fc <? s_price s) eqn:C3; [discriminate|].
+  do 3 (match goal with |- (if ?b then _ else _) <> Panic => destruct b; [discriminate|] end).
+  unfold csub. destruct (s_price s <=? vh fc) eqn:C4; [discriminate|lia].
+Qed.
+
+(* an accepted formation has the shape C07 assumes of stored contracts, and so has the first
+   revision the host stores for it *)
+Lemma formation_establishes_shape : forall fc uhexp height s hc other uc,
+  validate_formation fc uhexp height s = Ok hc ->
+  shape23 fc /\ shape23 (initial_revision fc other uc).
+Proof.
+  intros fc uhexp height s hc other uc H. unfold validate_formation, bad in H.
+  step H. step H. step H. step H. step H. step H. step H. step H.
+  unfold shape23; cbn. lia.
+Qed.
+
+Lemma renewal_std_shape : forall ex rn uhexp height window maxdur addr other uc,
+  renewal_std ex rn uhexp height window maxdur addr = Ok tt ->
+  shape23 rn /\ shape23 (initial_revision rn other uc).
+Proof.
+  intros ex rn uhexp height window maxdur addr other uc H. unfold renewal_std, bad in H.
+  step H. step H. step H. step H. step H. step H. step H. step H. step H.
+  unfold shape23; cbn. lia.
+Qed.
+
+(** * validateContractRenewal (RHP2) *)
+
+(* [a - b] on N is truncated at 0: exactly "SubWithUnderflow, 0 on underflow" *)
+Lemma csub_u_trunc : forall a b d u, a < two128 -> csub_u a b = (d, u) -> (if u then 0 else d) = a - b.
+Proof.
+  intros a b d u Ha H. destruct u.
+  - apply csub_u_true in H. lia.
+  - apply csub_u_false in H as [? ->]; [reflexivity|assumption].
+Qed.
+
+Lemma validate_renewal2_sound : forall ex rn uhexp baseRev baseRisk height s sr risked locked,
+  nowrap height (s_window s) (s_maxdur s) -> inrange rn ->
+  validate_renewal2 ex rn uhexp baseRev baseRisk height s = Ok (sr, risked, locked) ->
+  terms_ok rn height (s_window s) (s_maxdur s) (s_address s) /\
+  rnum rn = 0 /\ rsize rn = rsize ex /\ rroot rn = rroot ex /\ rwe ex <= rwe rn /\ ruh rn = uhexp /\
+  mh rn <= vh rn /\ vh rn - mh rn <= baseRev + baseRisk /\ mvoid rn = vh rn - mh rn /\
+  sr = baseRev /\ baseRev <= vh rn /\ locked = vh rn - baseRev /\ locked <= s_maxcoll s /\
+  risked = (vh rn - mh rn) - baseRev.
+Proof.
+  intros ex rn uhexp baseRev baseRisk height s sr risked locked W R H.
+  unfold validate_renewal2, bad in H.
+  destruct (renewal_std ex rn uhexp height (s_window s) (s_maxdur s) (s_address s)) as [[]| |] eqn:Es;
+    cbn [bind] in H; try discriminate.
+  apply renewal_std_sound in Es as (T & ? & ? & ? & ? & ?); [|assumption].
+  pose proof (inrange_vals _ R) as (_ & Rvh & _ & Rmh & Rvoid).
+  destruct (t_shape _ _ _ _ _ T) as [Lv Lm].
+  destruct (nth_out_eval (rmissed rn) 2) as (o3 & E3 & A3 & V3); [lia|].
+  rewrite E3, (valid_host_eval rn), (missed_host_eval rn) in H by lia; cbn [bind] in H.
+  step H. step H. step H. step H.
+  destruct (csub_u d0 baseRev) as [r0 uf2] eqn:S2.
+  step H. step H.
+  inversion H; subst; clear H.
+  apply cadd_o_false in S as [-> ?].
+  apply csub_u_false in S0 as [? ->]; [|assumption].
+  apply csub_u_false in S1 as [? ->]; [|assumption].
+  apply csub_u_trunc in S2; [|lia].
+  fold (mvoid rn) in V3.
+  split; [assumption|]. repeat split; try assumption; try lia.
+Qed.
+
+Lemma validate_renewal2_no_panic : forall ex rn uhexp baseRev baseRisk height s,
+  validate_renewal2 ex rn uhexp baseRev baseRisk height s <> Panic.
+Proof.
+  intros. unfold validate_renewal2, bad.
+  destruct (renewal_std ex rn uhexp height (s_window s) (s_maxdur s) (s_address s)) as [[]| |] eqn:Es;
+    cbn [bind]; try discriminate; [|exfalso; eapply renewal_std_no_panic; eauto].
+  destruct (renewal_std_shape _ _ _ _ _ _ _ 0 0 Es) as [[Lv Lm] _].
+  destruct (nth_out_eval (rmissed rn) 2) as (o3 & E3 & _); [lia|].
+  rewrite E3, (valid_host_eval rn), (missed_host_eval rn) by lia; cbn [bind].
+  repeat match goal with
+  | |- (if ?b then _ else _) <> Panic => destruct b; [discriminate|]
+  | |- (let '(_, _) := ?p in _) <> Panic => destruct p as [? []]
+  | |- Err _ <> Panic => discriminate
+  end.
+  all: try discriminate.
+Qed.
+
+(** * validateContractRenewal (RHP3) *)
+
+Lemma validate_renewal3_sound : forall ex rn uhexp wallet baseRev baseRisk pt risked locked,
+  nowrap (p_height pt) (p_window pt) (p_maxdur pt) -> inrange rn ->
+  validate_renewal3 ex rn uhexp wallet baseRev baseRisk pt = Ok (risked, locked) ->
+  terms_ok rn (p_height pt) (p_window pt) (p_maxdur pt) wallet /\
+  rnum rn = 0 /\ rsize rn = rsize ex /\ rroot rn = rroot ex /\ rwe ex <= rwe rn /\ ruh rn = uhexp /\
+  mh rn <= vh rn /\ vh rn - mh rn <= baseRev + baseRisk /\ mvoid rn = vh rn - mh rn /\
+  p_price pt + baseRev <= vh rn /\ locked = vh rn - (p_price pt + baseRev) /\ locked <= p_maxcoll pt /\
+  risked = (vh rn - mh rn) - baseRev /\
+  p_price pt + locked - risked <= mh rn.
+Proof.
+  intros ex rn uhexp wallet baseRev baseRisk pt risked locked W R H.
+  unfold validate_renewal3, bad in H.
+  destruct (renewal_std ex rn uhexp (p_height pt) (p_window pt) (p_maxdur pt) wallet) as [[]| |] eqn:Es;
+    cbn [bind] in H; try discriminate.
+  apply renewal_std_sound in Es as (T & ? & ? & ? & ? & ?); [|assumption].
+  pose proof (inrange_vals _ R) as (_ & Rvh & _ & Rmh & Rvoid).
+  destruct (t_shape _ _ _ _ _ T) as [Lv Lm].
+  destruct (nth_out_eval (rmissed rn) 2) as (o3 & E3 & A3 & V3); [lia|].
+  rewrite E3, (valid_host_eval rn), (missed_host_eval rn) in H by lia; cbn [bind] in H.
+  step H. step H. step H. step H.
+  destruct (csub_u d0 baseRev) as [r0 uf2] eqn:S2.
+  step H. step H. step H.
+  apply cadd_o_false in S as [-> ?].
+  apply csub_u_false in S0 as [? ->]; [|assumption].
+  apply cadd_o_false in S1 as [-> ?].
+  apply csub_u_false in S3 as [? ->]; [|assumption].
+  apply csub_u_trunc in S2; [|lia].
+  unfold cadd in H.
+  destruct (p_price pt + (vh rn - (p_price pt + baseRev)) <? two128) eqn:Ca; cbn [bind] in H; [|discriminate].
+  unfold csub in H.
+  destruct ((if uf2 then 0 else r0) <=? p_price pt + (vh rn - (p_price pt + baseRev))) eqn:Cb; cbn [bind] in H; [|discriminate].
+  step H. inversion H; subst; clear H.
+  fold (mvoid rn) in V3.
+  split; [assumption|]. repeat split; try assumption; try lia.
+Qed.
+
+Lemma validate_renewal3_no_panic : forall ex rn uhexp wallet baseRev baseRisk pt,
+  inrange rn ->
+  validate_renewal3 ex rn uhexp wallet baseRev baseRisk pt <> Panic.
+Proof.
+  intros ex rn uhexp wallet baseRev baseRisk pt R. unfold validate_renewal3, bad.
+  destruct (renewal_std ex rn uhexp (p_height pt) (p_window pt) (p_maxdur pt) wallet) as [[]| |] eqn:Es;
+    cbn [bind]; try discriminate; [|exfalso; eapply renewal_std_no_panic; eauto].
+  destruct (renewal_std_shape _ _ _ _ _ _ _ 0 0 Es) as [[Lv Lm] _].
+  pose proof (inrange_vals _ R) as (_ & Rvh & _ & Rmh & Rvoid).
+  destruct (nth_out_eval (rmissed rn) 2) as (o3 & E3 & _); [lia|].
+  rewrite E3, (valid_host_eval rn), (missed_host_eval rn) by lia; cbn [bind].
+  destruct (cadd_o baseRev baseRisk) as [eb []] eqn:S; [discriminate|].
+  destruct (csub_u (vh rn) (mh rn)) as [hb []] eqn:S0; [discriminate|].
+  destruct (eb <? hb); [discriminate|].
+  destruct (negb (oval o3 =? hb)); [discriminate|].
+  destruct (csub_u hb baseRev) as [r0 uf2] eqn:S2.
+  destruct (cadd_o (p_price pt) baseRev) as [mv []] eqn:S1; [discriminate|].
+  destruct (csub_u (vh rn) mv) as [lk []] eqn:S3; [discriminate|].
+  destruct (p_maxcoll pt <? lk); [discriminate|].
+  apply csub_u_false in S0 as [? ->]; [|assumption].
+  apply cadd_o_false in S1 as [-> ?].
+  apply csub_u_false in S3 as [? ->]; [|assumption].
+  apply csub_u_trunc in S2; [|lia].
+  unfold cadd. destruct (p_price pt + (vh rn - (p_price pt + baseRev)) <? two128) eqn:Ca; [|lia].
+  cbn [bind]. unfold csub.
+  destruct ((if uf2 then 0 else r0) <=? p_price pt + (vh rn - (p_price pt + baseRev))) eqn:Cb; [|lia].
+  cbn [bind]. destruct (mh rn <? _); discriminate.
+Qed.
+
+(* the last check of the RHP3 validator can never reject: it is implied by the earlier ones *)
+Lemma renewal3_missed_check_redundant : forall vhv mhv price baseRev,
+  mhv <= vhv -> price + baseRev <= vhv ->
+  price + (vhv - (price + baseRev)) - ((vhv - mhv) - baseRev) <= mhv.
+Proof. intros; lia. Qed.
+
+(** * renewalBaseCosts *)
+
+Lemma base_costs_sound : forall fixed us uc ex rn br bc,
+  base_costs fixed us uc ex rn = Ok (br, bc) ->
+  br = fixed + ext_cost us ex rn /\ bc = ext_cost uc ex rn /\ br < two128 \/
+  (rwe rn <= rwe ex /\ br = fixed /\ bc = 0).
+Proof.
+  intros fixed us uc ex rn br bc H. unfold base_costs, bad in H.
+  destruct (rwe rn <=? rwe ex) eqn:C0.
+  - inversion H; subst. right. lia.
+  - step H. step H. step H. step H. step H. inversion H; subst; clear H.
+    apply cmul64_o_false in S as [-> ?]. apply cmul64_o_false in S0 as [-> ?].
+    apply cadd_o_false in S1 as [-> ?].
+    apply cmul64_o_false in S2 as [-> ?]. apply cmul64_o_false in S3 as [-> ?].
+    left. unfold ext_cost. rewrite C0. lia.
+Qed.
+
+Lemma base_costs_eq : forall fixed us uc ex rn br bc,
+  base_costs fixed us uc ex rn = Ok (br, bc) ->
+  br = fixed + ext_cost us ex rn /\ bc = ext_cost uc ex rn.
+Proof.
+  intros fixed us uc ex rn br bc H. apply base_costs_sound in H as [(? & ? & _)|(L & ? & ?)].
+  - split; assumption.
+  - unfold ext_cost. destruct (rwe rn <=? rwe ex) eqn:C; lia.
+Qed.
+
+Lemma base_costs_no_panic : forall fixed us uc ex rn, base_costs fixed us uc ex rn <> Panic.
+Proof.
+  intros. unfold base_costs, bad. destruct (rwe rn <=? rwe ex); [discriminate|].
+  repeat match goal with
+  | |- (if ?b then _ else _) <> Panic => destruct b; [discriminate|]
+  | |- (let '(_, _) := ?p in _) <> Panic => destruct p as [? []]; [discriminate|]
+  end.
+  discriminate.
+Qed.
+
+(** * the handlers: decision and recorded figures *)
+
+Definition mkU (rpc storage risked : N) : usage := {| u_rpc := rpc; u_storage := storage; u_risked := risked |}.
+
+Lemma form2_sound : forall fc uhexp height require s o,
+  nowrap height (s_window s) (s_maxdur s) ->
+  form2 fc uhexp height require s = Ok o ->
+  exists locked u, o = OForm locked u /\
+  height < require /\ rws fc < require /\ s_accepting s = true /\
+  terms_ok fc height (s_window s) (s_maxdur s) (s_address s) /\
+  s_price s <= vh fc /\ locked <= s_maxcoll s /\
+  locked = vh fc - s_price s /\ u = mkU (s_price s) 0 0 /\
+  vh fc = locked + u_rpc u + u_storage u.
+Proof.
+  intros fc uhexp height require s o W H. unfold form2, bad in H.
+  step H. step H. step H.
+  destruct (validate_formation fc uhexp height s) as [hc| |] eqn:Ev; cbn [bind] in H; try discriminate.
+  inversion H; subst; clear H.
+  apply validate_formation_sound in Ev as (T & ? & ? & ? & ? & ? & ? & ? & ? & ? & ?); [|assumption].
+  exists hc, (mkU (s_price s) 0 0). unfold mkU; cbn [u_rpc u_storage].
+  split; [reflexivity|]. split; [lia|]. split; [lia|].
+  split; [destruct (s_accepting s); [reflexivity|discriminate]|].
+  split; [exact T|]. repeat split; lia.
+Qed.
+
+Lemma form2_no_panic : forall fc uhexp height require s, form2 fc uhexp height require s <> Panic.
+Proof.
+  intros. unfold form2, bad.
+  do 3 (match goal with |- (if ?b then _ else _) <> Panic => destruct b; [discriminate|] end).
+  pose proof (validate_formation_no_panic fc uhexp height s).
+  destruct (validate_formation fc uhexp height s); cbn [bind]; congruence.
+Qed.
+
+Lemma forall_vals_inrange : forall l, Forall (fun v => v < two128) (map oval l) -> Forall (fun o => oval o < two128) l.
+Proof. induction l; intros H; inversion H; subst; constructor; auto. Qed.
+
+Lemma renew2_sound : forall ex vals rn uhexp height require s o,
+  nowrap height (s_window s) (s_maxdur s) ->
+  inrange rn -> inrange ex -> Forall (fun v => v < two128) vals ->
+  renew2 ex vals rn uhexp height require s = Ok o ->
+  exists locked cu ru clr, o = ORenew locked cu ru /\
+  height < require /\ rws rn < require /\ s_accepting s = true /\ rnum ex <> max64 /\
+  (* the existing contract is cleared, paying at least min(renter payout, base RPC price) *)
+  clearing_revision ex vals = Ok clr /\ cleared ex clr (N.min (vr ex) (s_baserpc s)) /\
+  cu = mkU (vh clr - vh ex) 0 0 /\
+  (* the renewal respects the settings *)
+  terms_ok rn height (s_window s) (s_maxdur s) (s_address s) /\
+  rnum rn = 0 /\ rsize rn = rsize ex /\ rroot rn = rroot ex /\ rwe ex <= rwe rn /\ ruh rn = uhexp /\
+  s_price s + ext_cost (s_storage s) ex rn <= vh rn /\
+  locked <= s_maxcoll s /\
+  mh rn <= vh rn /\ mvoid rn = vh rn - mh rn /\
+  vh rn - mh rn <= s_price s + ext_cost (s_storage s) ex rn + ext_cost (s_coll s) ex rn /\
+  (* the recorded figures are those implied by the payouts and the prices *)
+  locked = vh rn - (s_price s + ext_cost (s_storage s) ex rn) /\
+  ru = mkU (s_price s) (ext_cost (s_storage s) ex rn)
+           ((vh rn - mh rn) - (s_price s + ext_cost (s_storage s) ex rn)) /\
+  vh rn = locked + u_rpc ru + u_storage ru.
+Proof.
+  intros ex vals rn uhexp height require s o W Rn Rx Rv H. unfold renew2, bad in H.
+  step H. step H. step H. step H.
+  destruct (clearing_revision ex vals) as [clr| |] eqn:Ec; cbn [bind] in H; try discriminate.
+  destruct (valid_renter ex) as [evr| |] eqn:Er; cbn [bind] in H; try discriminate.
+  destruct (validate_clearing ex clr (if evr <? s_baserpc s then evr else s_baserpc s)) as [fp| |] eqn:Ef;
+    cbn [bind] in H; try discriminate.
+  destruct (base_costs (s_price s) (s_storage s) (s_coll s) ex rn) as [[br bc]| |] eqn:Eb; cbn [bind fst snd] in H; try discriminate.
+  destruct (validate_renewal2 ex rn uhexp br bc height s) as [[[sr risked] locked]| |] eqn:Ev; cbn [bind] in H; try discriminate.
+  unfold csub in H. destruct (s_price s <=? sr) eqn:Cs; cbn [bind] in H; [|discriminate].
+  inversion H; subst; clear H.
+  apply acc_ok in Er as [-> _]. fold (vr ex) in Ef.
+  pose proof (clearing_revision_sound _ _ _ Ec) as (_ & _ & _ & _ & Hm & Hv & _).
+  assert (Rc : inrange clr).
+  { unfold inrange. rewrite Hm. rewrite <- Hv in Rv. apply forall_vals_inrange in Rv. split; assumption. }
+  apply validate_clearing_sound in Ef as (Cl & Hfp & _ & _); [|assumption|assumption].
+  replace (if vr ex <? s_baserpc s then vr ex else s_baserpc s) with (N.min (vr ex) (s_baserpc s)) in Cl
+    by (destruct (vr ex <? s_baserpc s) eqn:Cm; lia).
+  apply base_costs_eq in Eb as [-> ->].
+  apply validate_renewal2_sound in Ev as (T & ? & ? & ? & ? & ? & ? & ? & ? & ? & ? & ? & ? & ?); [|assumption|assumption].
+  exists locked, (mkU fp 0 0), (mkU (s_price s) (sr - s_price s) risked), clr.
+  subst sr. unfold mkU; cbn [u_rpc u_storage].
+  replace (s_price s + ext_cost (s_storage s) ex rn - s_price s) with (ext_cost (s_storage s) ex rn) by lia.
+  split; [reflexivity|]. split; [lia|]. split; [lia|].
+  split; [destruct (s_accepting s); [reflexivity|discriminate]|].
+  split; [lia|]. split; [reflexivity|]. split; [exact Cl|]. split; [subst fp; reflexivity|].
+  split; [exact T|]. repeat split; try assumption; try lia. subst risked. reflexivity.
+Qed.
+
+Lemma renew2_no_panic : forall ex vals rn uhexp height require s,
+  (1 <= length (rvalid ex))%nat ->
+  renew2 ex vals rn uhexp height require s <> Panic.
+Proof.
+  intros ex vals rn uhexp height require s L. unfold renew2, bad.
+  do 4 (match goal with |- (if ?b then _ else _) <> Panic => destruct b; [discriminate|] end).
+  pose proof (clearing_revision_no_panic ex vals).
+  destruct (clearing_revision ex vals) as [clr| |] eqn:Ec; cbn [bind]; try congruence.
+  unfold valid_renter. destruct (nth_out_lt (rvalid ex) 0) as [o0 E0]; [lia|]. rewrite E0; cbn [bind].
+  match goal with |- context [validate_clearing ex clr ?p] =>
+    pose proof (validate_clearing_no_panic ex clr p); destruct (validate_clearing ex clr p) as [fp| |] end;
+    cbn [bind]; try congruence.
+  pose proof (base_costs_no_panic (s_price s) (s_storage s) (s_coll s) ex rn).
+  destruct (base_costs (s_price s) (s_storage s) (s_coll s) ex rn) as [[br bc]| |] eqn:Eb; cbn [bind fst snd]; try congruence.
+  pose proof (validate_renewal2_no_panic ex rn uhexp br bc height s).
+  destruct (validate_renewal2 ex rn uhexp br bc height s) as [[[sr risked] locked]| |] eqn:Ev; cbn [bind]; try congruence.
+  (* baseRev.Sub(ContractPrice): the base revenue includes the contract price *)
+  assert (sr = br).
+  { unfold validate_renewal2 in Ev.
+    destruct (renewal_std ex rn uhexp height (s_window s) (s_maxdur s) (s_address s)) as [[]| |]; cbn [bind] in Ev; try discriminate.
+    unfold bad in Ev.
+    repeat match type of Ev with
+    | (if ?b then _ else _) = Ok _ => destruct b; [discriminate Ev|]
+    | (let '(_, _) := ?p in _) = Ok _ => destruct p as [? ?]
+    | bind ?r _ = Ok _ => destruct r; cbn [bind] in Ev; try discriminate Ev
+    end.
+    inversion Ev; reflexivity. }
+  subst sr. apply base_costs_eq in Eb as [-> _].
+  unfold csub. destruct (s_price s <=? s_price s + ext_cost (s_storage s) ex rn) eqn:C; [|lia].
+  cbn [bind]. discriminate.
+Qed.
+
+Lemma renew3_sound : forall accepting ex clr rn uhexp wallet require pt o,
+  nowrap (p_height pt) (p_window pt) (p_maxdur pt) ->
+  inrange rn -> inrange ex -> inrange clr ->
+  renew3 accepting ex clr rn uhexp wallet require pt = Ok o ->
+  exists locked cu ru, o = ORenew locked cu ru /\
+  rws rn < require /\ accepting = true /\
+  cleared ex clr 0 /\ cu = mkU (vh clr - vh ex) 0 0 /\
+  terms_ok rn (p_height pt) (p_window pt) (p_maxdur pt) wallet /\
+  rnum rn = 0 /\ rsize rn = rsize ex /\ rroot rn = rroot ex /\ rwe ex <= rwe rn /\ ruh rn = uhexp /\
+  p_price pt + (p_renewcost pt + ext_cost (p_writestore pt) ex rn) <= vh rn /\
+  locked <= p_maxcoll pt /\
+  mh rn <= vh rn /\ mvoid rn = vh rn - mh rn /\
+  vh rn - mh rn <= p_renewcost pt + ext_cost (p_writestore pt) ex rn + ext_cost (p_collcost pt) ex rn /\
+  locked = vh rn - (p_price pt + (p_renewcost pt + ext_cost (p_writestore pt) ex rn)) /\
+  ru = mkU (p_price pt) (p_renewcost pt + ext_cost (p_writestore pt) ex rn)
+           ((vh rn - mh rn) - (p_renewcost pt + ext_cost (p_writestore pt) ex rn)) /\
+  vh rn = locked + u_rpc ru + u_storage ru.
+Proof.
+  intros accepting ex clr rn uhexp wallet require pt o W Rn Rx Rc H. unfold renew3, bad in H.
+  step H. step H.
+  destruct (validate_clearing ex clr 0) as [fp| |] eqn:Ef; cbn [bind] in H; try discriminate.
+  destruct (base_costs (p_renewcost pt) (p_writestore pt) (p_collcost pt) ex rn) as [[br bc]| |] eqn:Eb; cbn [bind fst snd] in H; try discriminate.
+  destruct (validate_renewal3 ex rn uhexp wallet br bc pt) as [[risked locked]| |] eqn:Ev; cbn [bind] in H; try discriminate.
+  inversion H; subst; clear H.
+  apply validate_clearing_sound in Ef as (Cl & Hfp & _ & _); [|assumption|assumption].
+  apply base_costs_eq in Eb as [-> ->].
+  apply validate_renewal3_sound in Ev as (T & ? & ? & ? & ? & ? & ? & ? & ? & ? & ? & ? & ? & ?); [|assumption|assumption].
+  exists locked, (mkU fp 0 0), (mkU (p_price pt) (p_renewcost pt + ext_cost (p_writestore pt) ex rn) risked).
+  unfold mkU; cbn [u_rpc u_storage].
+  split; [reflexivity|]. split; [lia|].
+  split; [destruct accepting; [reflexivity|discriminate]|].
+  split; [exact Cl|]. split; [subst fp; reflexivity|].
+  split; [exact T|]. repeat split; try assumption; try lia. subst risked. reflexivity.
+Qed.
+
+Lemma renew3_no_panic : forall accepting ex clr rn uhexp wallet require pt,
+  inrange rn ->
+  renew3 accepting ex clr rn uhexp wallet require pt <> Panic.
+Proof.
+  intros accepting ex clr rn uhexp wallet require pt R. unfold renew3, bad.
+  do 2 (match goal with |- (if ?b then _ else _) <> Panic => destruct b; [discriminate|] end).
+  pose proof (validate_clearing_no_panic ex clr 0).
+  destruct (validate_clearing ex clr 0) as [fp| |]; cbn [bind]; try congruence.
+  pose proof (base_costs_no_panic (p_renewcost pt) (p_writestore pt) (p_collcost pt) ex rn).
+  destruct (base_costs (p_renewcost pt) (p_writestore pt) (p_collcost pt) ex rn) as [[br bc]| |]; cbn [bind fst snd]; try congruence.
+  pose proof (validate_renewal3_no_panic ex rn uhexp wallet br bc pt R).
+  destruct (validate_renewal3 ex rn uhexp wallet br bc pt) as [[risked locked]| |]; cbn [bind]; congruence.
+Qed.
+
+(** * non-vacuity *)
+Definition ex_s2 : settings2 := S2 true 5 144 4320 100 10000 2 3 10.
+Definition ex_pt : ptable := PT 1000 144 4320 100 10000 7 2 3.
+Definition ex_fc : rev := R 0 0 0 0 1144 1288 [O 1 5000; O 5 600] [O 1 5000; O 5 600; O 0 0] 1 0.
+Definition ex_existing : rev := R 0 1 4194304 1 1256 1400 [O 1 3000; O 5 900] [O 1 3000; O 5 800; O 0 100] 9 7.
+(* 4 MiB extended by 100 blocks: storage 2*4Mi*100 = 838860800, collateral 3*4Mi*100 = 1258291200 *)
+Definition ex_rn2 : rev := R 0 0 4194304 1 1300 1500 [O 1 7000; O 5 838864900] [O 1 7000; O 5 3950; O 0 838860950] 1 0.
+Definition ex_rn3 : rev := R 0 0 4194304 1 1300 1500 [O 1 7000; O 5 838864907] [O 1 7000; O 5 4050; O 0 838860857] 1 0.
+Definition ex_clr : rev := R 0 1 0 0 1256 1400 [O 1 2990; O 5 910] [O 1 2990; O 5 910] 9 max64.
+
+Lemma nonvacuous_ex :
+  nowrap 1000 144 4320
+  /\ form2 ex_fc 1 1000 100000 ex_s2 = Ok (OForm 500 (mkU 100 0 0))
+  /\ renew2 ex_existing [2990; 910] ex_rn2 1 1000 100000 ex_s2 = Ok (ORenew 4000 (mkU 10 0 0) (mkU 100 838860800 50))
+  /\ renew3 true ex_existing ex_clr ex_rn3 1 5 100000 ex_pt = Ok (ORenew 4000 (mkU 10 0 0) (mkU 100 838860807 50))
+  /\ form2 ex_fc 1 1001 100000 ex_s2 = Err EInvalid.
+Proof.
+  split; [unfold nowrap; split; reflexivity|]. vm_compute. repeat split; reflexivity.
+Qed.
+
+(** * wrappers used by the property file *)
+
+Lemma validate_renewal2_upper : forall ex rn uhexp baseRev baseRisk height s x,
+  validate_renewal2 ex rn uhexp baseRev baseRisk height s = Ok x -> rws rn <= height + s_maxdur s.
+Proof.
+  intros ex rn uhexp baseRev baseRisk height s x H. unfold validate_renewal2 in H.
+  destruct (renewal_std ex rn uhexp height (s_window s) (s_maxdur s) (s_address s)) as [[]| |] eqn:Es;
+    cbn [bind] in H; try discriminate.
+  eapply renewal_std_upper; eauto.
+Qed.
+
+Lemma validate_renewal3_upper : forall ex rn uhexp wallet baseRev baseRisk pt x,
+  validate_renewal3 ex rn uhexp wallet baseRev baseRisk pt = Ok x -> rws rn <= p_height pt + p_maxdur pt.
+Proof.
+  intros ex rn uhexp wallet baseRev baseRisk pt x H. unfold validate_renewal3 in H.
+  destruct (renewal_std ex rn uhexp (p_height pt) (p_window pt) (p_maxdur pt) wallet) as [[]| |] eqn:Es;
+    cbn [bind] in H; try discriminate.
+  eapply renewal_std_upper; eauto.
+Qed.
+
+Lemma renewal2_establishes_shape : forall ex rn uhexp baseRev baseRisk height s x other uc,
+  validate_renewal2 ex rn uhexp baseRev baseRisk height s = Ok x ->
+  shape23 rn /\ shape23 (initial_revision rn other uc).
+Proof.
+  intros ex rn uhexp baseRev baseRisk height s x other uc H. unfold validate_renewal2 in H.
+  destruct (renewal_std ex rn uhexp height (s_window s) (s_maxdur s) (s_address s)) as [[]| |] eqn:Es;
+    cbn [bind] in H; try discriminate.
+  eapply renewal_std_shape; eauto.
+Qed.
+
+Lemma renewal3_establishes_shape : forall ex rn uhexp wallet baseRev baseRisk pt x other uc,
+  validate_renewal3 ex rn uhexp wallet baseRev baseRisk pt = Ok x ->
+  shape23 rn /\ shape23 (initial_revision rn other uc).
+Proof.
+  intros ex rn uhexp wallet baseRev baseRisk pt x other uc H. unfold validate_renewal3 in H.
+  destruct (renewal_std ex rn uhexp (p_height pt) (p_window pt) (p_maxdur pt) wallet) as [[]| |] eqn:Es;
+    cbn [bind] in H; try discriminate.
+  eapply renewal_std_shape; eauto.
+Qed.
